@@ -297,6 +297,7 @@ class Ctx:
         self.force_uninterp = None  # optional predicate(path)->name
         self.max_depth = 8
         self.const_cache = {}
+        self.positive = set()  # atom names assumed > 0 (declared by the rule, listed in evidence)
 
     # constructors ---------------------------------------------------------
     def num(self, c):
@@ -310,6 +311,10 @@ class Ctx:
     def app(self, name, args):
         """Uninterpreted application; args are RatFunc (scalar leaves)."""
         # light constant folding
+        if name == "cbrt" and len(args) == 1 and isinstance(args[0], RatFunc) and not args[0].is_const():
+            cube = _cube_of_linear(args[0], self)
+            if cube is not None and cube[1] == 0:
+                return cube[0]
         if name in ("sqrt", "cbrt") and len(args) == 1 and isinstance(args[0], RatFunc) and args[0].is_const():
             c = args[0].const_value()
             r = _exact_root(c, 2 if name == "sqrt" else 3)
@@ -395,6 +400,32 @@ class Ctx:
         if d.is_const():
             c = d.const_value()
             return {"<": c < 0, "<=": c <= 0, "==": c == 0, "!=": c != 0}[op]
+        # a denominator that is a product of atoms declared positive does not affect the sign
+        if not poly.p_is_const(d.den) and len(d.den) == 1 and self.positive:
+            (m, cden), = d.den.items()
+            if cden > 0 and all(poly.atom_by_id(k).name in self.positive for k, _ in m):
+                d = RatFunc(dict(d.num), poly.p_const(1), self.tab)._norm()
+        # (linear form)^3 + r op 0  <=>  linear form op cbrt(-r)   (x -> x^3 strictly monotone)
+        cube = _cube_of_linear(d, self)
+        if cube is not None:
+            lin, r = cube
+            root = _exact_root(-r, 3)
+            if root is not None:
+                return self._cmp_leaf(op, lin, self.num(root))
+        # strictly monotone cbrt: alpha*cbrt(u) + k op 0  <=>  u op' (-k/alpha)^3
+        if poly.p_is_const(d.den) and 1 <= len(d.num) <= 2:
+            mono = [m for m in d.num if m != ()]
+            if len(mono) == 1 and len(mono[0]) == 1 and mono[0][0][1] == 1:
+                at = poly.atom_by_id(mono[0][0][0])
+                if at.name == "cbrt" and isinstance(at.args[0], RatFunc):
+                    den = poly.p_const_value(d.den)
+                    alpha = d.num[mono[0]] / den
+                    k = d.num.get((), Fraction(0)) / den
+                    thr = self.num((-k / alpha) ** 3)
+                    u = at.args[0]
+                    if alpha > 0:
+                        return self._cmp_leaf(op, u, thr)
+                    return self._cmp_leaf({"<": ">", "<=": ">=", "==": "==", "!=": "!="}[op], u, thr)
         neg = False
         if op == "!=":
             op = "=="
@@ -424,6 +455,41 @@ class Ctx:
             self._cond_rf[c] = list(xs)
             return Ite(c, True, False)
         return mapn(leaf, list(args))
+
+
+def _cube_of_linear(d, ctx):
+    """If d (constant denominator) = L^3 + r with L a linear form in atoms and r constant,
+    return (L, r)."""
+    if not poly.p_is_const(d.den):
+        return None
+    den = poly.p_const_value(d.den)
+    num = d.num
+    if not num or max(sum(e for _, e in m) for m in num) != 3:
+        return None
+    atoms = set()
+    for m in num:
+        for k, e in m:
+            atoms.add(k)
+    coef = {}
+    for k in atoms:
+        c3 = num.get(((k, 3),))
+        if c3 is None:
+            return None
+        a = _exact_root(c3 / den, 3)
+        if a is None:
+            return None
+        coef[k] = a
+    # constant term of L from the x^2 coefficient of the first atom
+    k0 = sorted(atoms)[0]
+    c2 = num.get(((k0, 2),), Fraction(0)) / den
+    a0 = c2 / (3 * coef[k0] ** 2)
+    L = RatFunc.const(a0, ctx.tab)
+    for k, a in coef.items():
+        L = L + RatFunc({((k, 1),): Fraction(a)}, poly.p_const(1), ctx.tab)
+    rest = d - L ** 3
+    if not rest.is_const():
+        return None
+    return L, rest.const_value()
 
 
 def _single_atom(rf):
@@ -879,7 +945,7 @@ class Evaluator:
                 if op == "*":
                     return x * y
                 if y.is_zero():
-                    raise Opaque("division by literal zero")
+                    return ctx.sym("⊥div0")
                 return x / y
             return map2(f, a, b)
         if op in ("<", "<=", ">", ">=", "==", "!="):
